@@ -353,10 +353,49 @@ def _producers_by_def(du, v, depth=0):
                 if not sub:
                     return []
                 out.extend(sub)
+            elif d[0] == "assign" and d[3]["k"] == "use" and d[3]["ops"][0].get("k") in ("copy", "move") and _ok_payload(d[3]["ops"][0]["p"]):
+                # `Ok(bytes) => bytes` of a helper's result (inlined, A11): the Ok(..) the helper builds; its early Err returns carry no bytes
+                sub = []
+                for d2 in du.defs.get(d[3]["ops"][0]["l"], []):
+                    if d2[0] == "call" and (callee_name(d2[3]) or "").endswith("::from_residual"):
+                        continue
+                    if d2[0] == "assign" and d2[3]["k"] == "aggregate" and d2[3].get("variant") == "Err":
+                        continue
+                    if d2[0] == "assign" and d2[3]["k"] == "aggregate" and d2[3].get("variant") in ("Ok", "Some") and d2[3]["ops"] and d2[3]["ops"][0].get("k") in ("copy", "move") and not d2[3]["ops"][0]["p"]:
+                        s2 = _producers_by_def(du, ("place", (d2[3]["ops"][0]["l"], ())), depth + 1)
+                        if not s2:
+                            return []
+                        sub.extend(s2)
+                    elif d2[0] == "assign" and d2[3]["k"] == "use" and d2[3]["ops"][0].get("k") in ("copy", "move") and not d2[3]["ops"][0]["p"]:
+                        # the call's destination takes the inlined helper's return place
+                        inner = []
+                        for d3 in du.defs.get(d2[3]["ops"][0]["l"], []):
+                            if d3[0] == "call" and (callee_name(d3[3]) or "").endswith("::from_residual"):
+                                continue
+                            if d3[0] == "assign" and d3[3]["k"] == "aggregate" and d3[3].get("variant") == "Err":
+                                continue
+                            if d3[0] == "assign" and d3[3]["k"] == "aggregate" and d3[3].get("variant") in ("Ok", "Some") and d3[3]["ops"] and d3[3]["ops"][0].get("k") in ("copy", "move") and not d3[3]["ops"][0]["p"]:
+                                s3 = _producers_by_def(du, ("place", (d3[3]["ops"][0]["l"], ())), depth + 1)
+                                if not s3:
+                                    return []
+                                inner.extend(s3)
+                            else:
+                                return []
+                        sub.extend(inner)
+                    else:
+                        return []
+                if not sub:
+                    return []
+                out.extend(sub)
             else:
                 return []
         return out
     return []
+
+
+def _ok_payload(proj):
+    p = [e for e in proj if e != "*"]
+    return len(p) == 2 and isinstance(p[0], dict) and p[0].get("d") in ("Ok", "Some") and isinstance(p[1], dict) and p[1].get("f") == 0
 
 
 def _root_producer(du, place):
